@@ -99,6 +99,9 @@ func (e *Eng) obligations() {
 	e.codecConfig()
 	e.codecFlush()
 	e.marshalLiterals()
+	e.apiOutcome()
+	e.readerLineTail()
+	e.modeFlag()
 
 	// ---- C16: who reads Message
 	e.messageReaders()
